@@ -90,6 +90,9 @@ pub struct RlCase {
     /// the response futures are left, some of them still waiting for a permit)
     #[serde(default)]
     pub drop_services: bool,
+    /// callers (by index, mod 64) whose first poll starts on an exhausted cooperative budget
+    #[serde(default)]
+    pub starve_mask: u64,
 }
 
 #[derive(Clone, Debug, Serialize, Deserialize)]
@@ -125,6 +128,7 @@ fn stress_strategy(tier: Tier) -> BoxedStrategy<RlCase> {
             busy: None,
             listeners: false,
             drop_services: false,
+            starve_mask: 0,
             stress: Some(RlStress {
                 window,
                 threads,
@@ -286,10 +290,11 @@ fn case_strategy(tier: Tier) -> BoxedStrategy<RlCase> {
             prop_oneof![4 => Just(None), 1 => (rel(8), rel(3)).prop_map(Some)],
             prop::bool::weighted(0.3),
             prop::bool::weighted(0.25),
+            prop_oneof![4 => Just(0u64), 1 => (0u64..64).prop_map(|k| 1 << k), 1 => any::<u64>()],
         ),
     )
         .prop_map(
-            |(window, limit, period, timeout, clones, callers, order, stall, (timeout_forever, setter_order, build_offset_us, busy, listeners, drop_services))| RlCase {
+            |(window, limit, period, timeout, clones, callers, order, stall, (timeout_forever, setter_order, build_offset_us, busy, listeners, drop_services, starve_mask))| RlCase {
                 window,
                 limit,
                 period,
@@ -304,6 +309,7 @@ fn case_strategy(tier: Tier) -> BoxedStrategy<RlCase> {
                 listeners,
                 stress: None,
                 drop_services,
+                starve_mask,
                 stall,
             },
         )
@@ -539,7 +545,11 @@ async fn interp(case: &RlCase) -> Verdict {
             }
             if at[i] == t {
                 if let Some(fut) = held[i].take() {
-                    task[i] = Some(sim.spawn_call(fut, map_outcome));
+                    let tk = sim.spawn_call(fut, map_outcome);
+                    if (case.starve_mask >> (i % 64)) & 1 == 1 {
+                        sim.starve_first_poll(tk);
+                    }
+                    task[i] = Some(tk);
                 }
             }
         }
@@ -832,6 +842,9 @@ async fn interp(case: &RlCase) -> Verdict {
     }
     if case.drop_services {
         v.classes.push("service_handles_dropped_after_the_last_call");
+    }
+    if case.starve_mask & ((1u64 << case.callers.len().min(63)) - 1) != 0 {
+        v.classes.push("first_poll_with_exhausted_cooperative_budget");
     }
     let _ = &keep_alive;
     if busy.is_some() {
